@@ -349,6 +349,172 @@ theorem normal_ordered_sound_melF_tol (D : Nat) (hD : 0 < D) (tol : Rat) (h0 : 0
   exact melF_congr _ _ (wf_normalOrdered tol .fermion a) (wf_normalOrdered 0 .fermion a)
     (normal_ordered_exact_regime D hD tol h0 h1 .fermion trivial a la) out s
 
+/-- bosons, the tolerance the code uses (lattice inputs): every coefficient of
+`normal_ordered(A)·x^s` in the executable Spec equals that of `A·x^s`. -/
+theorem normal_ordered_sound_boson_spec_tol (D : Nat) (hD : 0 < D) (tol : Rat) (h0 : 0 ≤ tol) (h1 : tol * D ≤ 1)
+    (a : Op) (hv : ∀ e ∈ a, ∀ f ∈ e.1, f.2 < 2) (la : ∀ e ∈ a, Lat D e.2)
+    (s out : Spec.Mono) (hs : Trimmed s) (ho : Trimmed out) :
+    Spec.GV.coeff (Spec.applyOp .boson (normalOrdered tol .boson a) s) out =
+      Spec.GV.coeff (Spec.applyOp .boson a s) out := by
+  rw [← normal_ordered_sound_boson_spec a hv s out hs ho]
+  exact applyOp_coeff_congr .boson Spec.actB (fun _ _ => rfl) _ _
+    (wf_normalOrdered tol .boson a) (wf_normalOrdered 0 .boson a)
+    (normal_ordered_exact_regime D hD tol h0 h1 .boson trivial a la) s out
+
+/-- quadratures with Gaussian-integer `ħ`, the tolerance the code uses (lattice inputs). -/
+theorem quad_sound_hbar_spec_tol (D : Nat) (hD : 0 < D) (tol : Rat) (h0 : 0 ≤ tol) (h1 : tol * D ≤ 1)
+    (hbar : GQ) (hh : ∃ p q : Int, hbar.re = p ∧ hbar.im = q) (a : Op) (la : ∀ e ∈ a, Lat D e.2)
+    (s out : Spec.Mono) (hs : Trimmed s) (ho : Trimmed out) :
+    Spec.GV.coeff (Spec.applyOp (.quad hbar) (normalOrdered tol (.quad hbar) a) s) out =
+      Spec.GV.coeff (Spec.applyOp (.quad hbar) a s) out := by
+  rw [← quad_sound_hbar_spec hbar a s out hs ho]
+  exact applyOp_coeff_congr (.quad hbar) (Spec.actQuad hbar) (fun _ _ => rfl) _ _
+    (wf_normalOrdered tol (.quad hbar) a) (wf_normalOrdered 0 (.quad hbar) a)
+    (normal_ordered_exact_regime D hD tol h0 h1 (.quad hbar) hh a la) s out
+
+/-- quadratures with a fractional `ħ = (p + q i)/E` (e.g. 1/2), the tolerance the code uses. -/
+theorem quad_sound_hbar_spec_tol_fractional (D E K : Nat) (hE : 0 < E) (hD : 0 < D) (tol : Rat)
+    (h0 : 0 ≤ tol) (h1 : tol * ((D * E ^ K : Nat) : Rat) ≤ 1) (hbar : GQ)
+    (hh : ∃ p q : Int, hbar.re = (p : Rat) / E ∧ hbar.im = (q : Rat) / E)
+    (a : Op) (la : ∀ e ∈ a, Lat D e.2 ∧ e.1.length ≤ K)
+    (s out : Spec.Mono) (hs : Trimmed s) (ho : Trimmed out) :
+    Spec.GV.coeff (Spec.applyOp (.quad hbar) (normalOrdered tol (.quad hbar) a) s) out =
+      Spec.GV.coeff (Spec.applyOp (.quad hbar) a s) out := by
+  rw [← quad_sound_hbar_spec hbar a s out hs ho]
+  exact applyOp_coeff_congr (.quad hbar) (Spec.actQuad hbar) (fun _ _ => rfl) _ _
+    (wf_normalOrdered tol (.quad hbar) a) (wf_normalOrdered 0 (.quad hbar) a)
+    (normal_ordered_exact_regime_quad_fractional D E K hE hD tol h0 h1 hbar hh a la) s out
+
+/-- **canonicity at the tolerance the code uses** (fermions, lattice inputs): two FermionOperators
+denote the same operator iff the dictionaries the executed `normal_ordered` returns have equal
+coefficients. -/
+theorem canonicity_fermion_tol (D : Nat) (hD : 0 < D) (tol : Rat) (h0 : 0 ≤ tol) (h1 : tol * D ≤ 1)
+    (a b : Op) (va : ∀ e ∈ a, ∀ f ∈ e.1, f.2 < 2) (vb : ∀ e ∈ b, ∀ f ∈ e.1, f.2 < 2)
+    (la : ∀ e ∈ a, Lat D e.2) (lb : ∀ e ∈ b, Lat D e.2) :
+    (∀ s out, Spec.melF a out s = Spec.melF b out s) ↔
+      ∀ t, Dict.getD (normalOrdered tol .fermion a) t 0 = Dict.getD (normalOrdered tol .fermion b) t 0 := by
+  rw [canonicity_fermion a b va vb]
+  have ea := normal_ordered_exact_regime D hD tol h0 h1 .fermion trivial a la
+  have eb := normal_ordered_exact_regime D hD tol h0 h1 .fermion trivial b lb
+  constructor
+  · intro h t; rw [ea t, eb t]; exact h t
+  · intro h t; rw [← ea t, ← eb t]; exact h t
+
+/-- canonicity at the tolerance the code uses, bosons. -/
+theorem canonicity_boson_tol (D : Nat) (hD : 0 < D) (tol : Rat) (h0 : 0 ≤ tol) (h1 : tol * D ≤ 1)
+    (a b : Op) (va : ∀ e ∈ a, ∀ f ∈ e.1, f.2 < 2) (vb : ∀ e ∈ b, ∀ f ∈ e.1, f.2 < 2)
+    (la : ∀ e ∈ a, Lat D e.2) (lb : ∀ e ∈ b, Lat D e.2) :
+    (∀ s out, Trimmed s → Trimmed out →
+      Spec.GV.coeff (Spec.applyOp .boson a s) out = Spec.GV.coeff (Spec.applyOp .boson b s) out) ↔
+      ∀ t, Dict.getD (normalOrdered tol .boson a) t 0 = Dict.getD (normalOrdered tol .boson b) t 0 := by
+  rw [canonicity_boson a b va vb]
+  have ea := normal_ordered_exact_regime D hD tol h0 h1 .boson trivial a la
+  have eb := normal_ordered_exact_regime D hD tol h0 h1 .boson trivial b lb
+  constructor
+  · intro h t; rw [ea t, eb t]; exact h t
+  · intro h t; rw [← ea t, ← eb t]; exact h t
+
+/-- canonicity at the tolerance the code uses, quadratures with a Gaussian-integer `ħ ≠ 0`
+(the default `ħ = 1`, and 2, 8, …). -/
+theorem canonicity_quad_tol (D : Nat) (hD : 0 < D) (tol : Rat) (h0 : 0 ≤ tol) (h1 : tol * D ≤ 1)
+    (hbar : GQ) (hh : hbar ≠ 0) (hk : LatticeKind (.quad hbar))
+    (a b : Op) (va : ∀ e ∈ a, ∀ f ∈ e.1, f.2 < 2) (vb : ∀ e ∈ b, ∀ f ∈ e.1, f.2 < 2)
+    (la : ∀ e ∈ a, Lat D e.2) (lb : ∀ e ∈ b, Lat D e.2) :
+    (∀ s out, Trimmed s → Trimmed out →
+      Spec.GV.coeff (Spec.applyOp (.quad hbar) a s) out = Spec.GV.coeff (Spec.applyOp (.quad hbar) b s) out) ↔
+      ∀ t, Dict.getD (normalOrdered tol (.quad hbar) a) t 0 =
+        Dict.getD (normalOrdered tol (.quad hbar) b) t 0 := by
+  rw [canonicity_quad hbar hh a b va vb]
+  have ea := normal_ordered_exact_regime D hD tol h0 h1 (.quad hbar) hk a la
+  have eb := normal_ordered_exact_regime D hD tol h0 h1 (.quad hbar) hk b lb
+  constructor
+  · intro h t; rw [ea t, eb t]; exact h t
+  · intro h t; rw [← ea t, ← eb t]; exact h t
+
+/-- canonicity at the tolerance the code uses, quadratures with a FRACTIONAL `ħ = (p + q i)/E ≠ 0`
+(e.g. `ħ = 1/2`), terms of length `≤ K`, `tol·D·E^K ≤ 1`. -/
+theorem canonicity_quad_tol_fractional (D E K : Nat) (hE : 0 < E) (hD : 0 < D) (tol : Rat)
+    (h0 : 0 ≤ tol) (h1 : tol * ((D * E ^ K : Nat) : Rat) ≤ 1) (hbar : GQ) (hne : hbar ≠ 0)
+    (hh : ∃ p q : Int, hbar.re = (p : Rat) / E ∧ hbar.im = (q : Rat) / E)
+    (a b : Op) (va : ∀ e ∈ a, ∀ f ∈ e.1, f.2 < 2) (vb : ∀ e ∈ b, ∀ f ∈ e.1, f.2 < 2)
+    (la : ∀ e ∈ a, Lat D e.2 ∧ e.1.length ≤ K) (lb : ∀ e ∈ b, Lat D e.2 ∧ e.1.length ≤ K) :
+    (∀ s out, Trimmed s → Trimmed out →
+      Spec.GV.coeff (Spec.applyOp (.quad hbar) a s) out = Spec.GV.coeff (Spec.applyOp (.quad hbar) b s) out) ↔
+      ∀ t, Dict.getD (normalOrdered tol (.quad hbar) a) t 0 =
+        Dict.getD (normalOrdered tol (.quad hbar) b) t 0 := by
+  rw [canonicity_quad hbar hne a b va vb]
+  have ea := normal_ordered_exact_regime_quad_fractional D E K hE hD tol h0 h1 hbar hh a la
+  have eb := normal_ordered_exact_regime_quad_fractional D E K hE hD tol h0 h1 hbar hh b lb
+  constructor
+  · intro h t; rw [ea t, eb t]; exact h t
+  · intro h t; rw [← ea t, ← eb t]; exact h t
+
+/-- the executed `normal_ordered` keeps lattice inputs on the lattice (so its result is again an
+admissible input of the exact-regime theorems). -/
+theorem normal_ordered_lattice_closed (D : Nat) (hD : 0 < D) (tol : Rat) (h0 : 0 ≤ tol) (h1 : tol * D ≤ 1)
+    (k : Kind) (hk : LatticeKind k) (a : Op) (la : ∀ e ∈ a, Lat D e.2) :
+    ∀ e ∈ normalOrdered tol k a, Lat D e.2 := by
+  have hkk : ∀ c, Lat D c → Lat D (k.swapCoeff c) ∧ Lat D (k.contractCoeff c) := by
+    cases k with
+    | fermion => exact hk_fermion D
+    | boson => exact hk_boson D
+    | quad h => exact hk_quad D h hk
+  have hmk : ∀ t c, Lat D c → Lat D (c * (simplify k.cls t).1) := by
+    intro t c hc
+    cases k <;> exact lat_mul_one D c hc
+  exact (normalOrdered_sim D hD tol h0 h1 k hkk hmk a la).2.2.1
+
+/-- **idempotence of the executed function** (fermions, lattice inputs, the tolerance the code
+uses): `normal_ordered(normal_ordered(A))` has the coefficients of `normal_ordered(A)`. -/
+theorem normal_ordered_idempotent_tol (D : Nat) (hD : 0 < D) (tol : Rat) (h0 : 0 ≤ tol) (h1 : tol * D ≤ 1)
+    (a : Op) (va : ∀ e ∈ a, ∀ f ∈ e.1, f.2 < 2) (la : ∀ e ∈ a, Lat D e.2) :
+    ∀ t, Dict.getD (normalOrdered tol .fermion (normalOrdered tol .fermion a)) t 0 =
+      Dict.getD (normalOrdered tol .fermion a) t 0 := by
+  obtain ⟨wa', va', _⟩ := normal_ordered_fermion_wellformed tol a va
+  have la' := normal_ordered_lattice_closed D hD tol h0 h1 .fermion trivial a la
+  have ea := normal_ordered_exact_regime D hD tol h0 h1 .fermion trivial a la
+  intro t
+  rw [normal_ordered_exact_regime D hD tol h0 h1 .fermion trivial _ la' t, ea t,
+    ← normal_ordered_idempotent a va t]
+  obtain ⟨wa0, va0, _⟩ := normal_ordered_fermion_wellformed 0 a va
+  exact (canonicity_fermion _ _ va' va0).1
+    (fun s out => melF_congr _ _ wa' wa0 ea out s) t
+
+/-- idempotence, bosons (tolerance 0, ALL inputs with action codes 0 / 1). -/
+theorem normal_ordered_idempotent_boson (a : Op) (va : ∀ e ∈ a, ∀ f ∈ e.1, f.2 < 2) :
+    ∀ t, Dict.getD (normalOrdered 0 .boson (normalOrdered 0 .boson a)) t 0 =
+      Dict.getD (normalOrdered 0 .boson a) t 0 :=
+  (canonicity_boson _ a (normalOrdered_valid_sorted 0 .boson (Or.inl rfl) a va) va).1
+    (fun s out hs ho => normal_ordered_sound_boson_spec a va s out hs ho)
+
+/-- idempotence, quadratures (tolerance 0, every `ħ ≠ 0`, ALL inputs with action codes 0 / 1). -/
+theorem normal_ordered_idempotent_quad (hbar : GQ) (hh : hbar ≠ 0) (a : Op)
+    (va : ∀ e ∈ a, ∀ f ∈ e.1, f.2 < 2) :
+    ∀ t, Dict.getD (normalOrdered 0 (.quad hbar) (normalOrdered 0 (.quad hbar) a)) t 0 =
+      Dict.getD (normalOrdered 0 (.quad hbar) a) t 0 :=
+  (canonicity_quad hbar hh _ a (normalOrdered_valid_sorted 0 (.quad hbar) (Or.inr rfl) a va) va).1
+    (fun s out hs ho => quad_sound_hbar_spec hbar a s out hs ho)
+
+/-- idempotence of the executed function, bosons (lattice inputs, the tolerance the code uses). -/
+theorem normal_ordered_idempotent_boson_tol (D : Nat) (hD : 0 < D) (tol : Rat) (h0 : 0 ≤ tol) (h1 : tol * D ≤ 1)
+    (a : Op) (va : ∀ e ∈ a, ∀ f ∈ e.1, f.2 < 2) (la : ∀ e ∈ a, Lat D e.2) :
+    ∀ t, Dict.getD (normalOrdered tol .boson (normalOrdered tol .boson a)) t 0 =
+      Dict.getD (normalOrdered tol .boson a) t 0 :=
+  (canonicity_boson_tol D hD tol h0 h1 _ a (normalOrdered_valid_sorted tol .boson (Or.inl rfl) a va) va
+    (normal_ordered_lattice_closed D hD tol h0 h1 .boson trivial a la) la).1
+    (fun s out hs ho => normal_ordered_sound_boson_spec_tol D hD tol h0 h1 a va la s out hs ho)
+
+/-- idempotence of the executed function, quadratures with Gaussian-integer `ħ ≠ 0`. -/
+theorem normal_ordered_idempotent_quad_tol (D : Nat) (hD : 0 < D) (tol : Rat) (h0 : 0 ≤ tol) (h1 : tol * D ≤ 1)
+    (hbar : GQ) (hh : hbar ≠ 0) (hk : LatticeKind (.quad hbar))
+    (a : Op) (va : ∀ e ∈ a, ∀ f ∈ e.1, f.2 < 2) (la : ∀ e ∈ a, Lat D e.2) :
+    ∀ t, Dict.getD (normalOrdered tol (.quad hbar) (normalOrdered tol (.quad hbar) a)) t 0 =
+      Dict.getD (normalOrdered tol (.quad hbar) a) t 0 :=
+  (canonicity_quad_tol D hD tol h0 h1 hbar hh hk _ a
+    (normalOrdered_valid_sorted tol (.quad hbar) (Or.inr rfl) a va) va
+    (normal_ordered_lattice_closed D hD tol h0 h1 (.quad hbar) hk a la) la).1
+    (fun s out hs ho => quad_sound_hbar_spec_tol D hD tol h0 h1 hbar hk a la s out hs ho)
+
 -- non-vacuity: the extracted EQ_TOLERANCE admits the dyadic lattice 2^-26
 example : (0 : Rat) ≤ Generated.eqTolerance ∧ Generated.eqTolerance * ((2 ^ 26 : Nat) : Rat) ≤ 1 := by
   constructor <;> norm_num [Generated.eqTolerance]
